@@ -29,7 +29,7 @@ PROP_MODULES = {
     "C03": ["c03"],
     "C10": ["c01", "c03", "c10"],
     "C16": ["c16"],
-    "C20": ["c20"],
+    "C20": ["c20", "c05"],
     "C14": ["c14"],
     "C17": ["c17"],
     "C13": ["c13", "c11"],
